@@ -356,6 +356,32 @@ pub fn preludes(th: &Theory, b: &Bounds) -> Vec<Vec<Op>> {
         }
         if !out.contains(&p) { out.push(p); }
     }
+    // theories with a model declaration: additional start states in which a morphism chain is already in place
+    // (objects o0 -> o1 [-> o2], signatures asserted, nothing closed yet), so that the depth budget is spent on member
+    // facts, equalities and closes; the unwired preludes above keep "signature arrives later" in the search
+    for (dom, dr) in th.rels.iter().enumerate().filter(|(_, r)| r.mor_sig.as_deref() == Some("dom")) {
+        let cod = match th.rels.iter().position(|c| c.mor_sig.as_deref() == Some("cod") && c.arity == dr.arity) { Some(c) => c, None => continue };
+        let (mor_ty, obj_ty) = (dr.arity[0], dr.arity[1]);
+        for (n_obj, n_other) in [(2usize, 2usize), (3, 1)] {
+            let mut p = Vec::new();
+            let mut objs = Vec::new();
+            let mut mors = Vec::new();
+            for (ti, t) in th.types.iter().enumerate() {
+                if t.kind == TypeKind::Enum { continue; }
+                let k = if ti == obj_ty { n_obj } else if ti == mor_ty { n_obj - 1 } else { n_other };
+                for _ in 0..k {
+                    if ti == obj_ty { objs.push(p.len()); }
+                    if ti == mor_ty { mors.push(p.len()); }
+                    p.push(Op::New(ti));
+                }
+            }
+            for (i, &m) in mors.iter().enumerate() {
+                p.push(Op::Insert(dom, vec![m, objs[i]]));
+                p.push(Op::Insert(cod, vec![m, objs[i + 1]]));
+            }
+            if !out.contains(&p) { out.push(p); }
+        }
+    }
     out
 }
 
@@ -424,6 +450,19 @@ pub fn explore_theory(th: &Theory, make: fn() -> Box<dyn DynModel>, b: &Bounds, 
         }
     }
     res.states = seen.len() as u64;
+    // every start state (prelude) gets the same share of the transition budget, so that a cap never starves the later ones
+    // (smallest start state first; what one does not use is passed on to the later ones)
+    let mut starts: Vec<Node> = std::mem::take(&mut frontier);
+    starts.sort_by_key(|n| n.history.len());
+    let n_starts = starts.len();
+    let mut any_capped = false;
+    let mut min_depth: Option<usize> = None;
+    for (si, start) in starts.into_iter().enumerate() {
+    let share = (b.trans_cap.saturating_sub(res.transitions as usize) / (n_starts - si)).max(1);
+    let budget_end = res.transitions as usize + share;
+    res.capped = false;
+    let mut depth_here = 0usize;
+    frontier = vec![start];
     for depth in 0..b.depth {
         let mut next: Vec<Node> = Vec::new();
         // the level is expanded in chunks so that the state / wall caps take effect inside a level
@@ -548,16 +587,21 @@ pub fn explore_theory(th: &Theory, make: fn() -> Box<dyn DynModel>, b: &Bounds, 
                     next.push(Node { history: hist, explored_from: node.explored_from, transcript: o.transcript });
                 }
             }
-            if seen.len() > b.state_cap || res.transitions as usize > b.trans_cap { res.capped = true; res.cap_hit = "transition/state budget"; break; }
+            if seen.len() > b.state_cap || res.transitions as usize > budget_end { res.capped = true; res.cap_hit = "transition/state budget"; break; }
             if t0.elapsed().as_secs() > b.wall_cap_s { res.capped = true; res.cap_hit = "wall-clock safety net"; break; }
         }
         }
         res.states = seen.len() as u64;
         if res.capped { break; }
-        res.depth_completed = depth + 1;
+        depth_here = depth + 1;
         if next.is_empty() { break; }
         frontier = next;
     }
+    any_capped |= res.capped;
+    min_depth = Some(min_depth.map_or(depth_here, |d| d.min(depth_here)));
+    }
+    res.capped = any_capped;
+    res.depth_completed = min_depth.unwrap_or(0);
     res.groups = groups.len() as u64;
     res.groups_nontrivial = groups.values().filter(|g| g.2 >= 2).count() as u64;
     if res.samples.is_empty() {
